@@ -261,7 +261,8 @@ PROPS = {
         trusted_base=TB_COMMON,
         assumptions=["encoding/json struct field order / omitempty and json.Indent as modelled (compared byte for byte); time.Time RFC 3339 token and url.URL.String() passed verbatim",
                      "base62.Random gives fresh ids (the harness checks collisions within a run only)",
-                     "the harness signer is a deterministic function the Lean driver can recompute; a failing signer returns an error"],
+                     "the harness signer is a deterministic function the Lean driver can recompute; a failing signer returns an error",
+                     "verification (signed_document_verifies, signed_text_document_verifies): the consumer is the model's own verify / verifyText (M8v: strict parser M8r, json.Compact as modelled, base64url decoder), each compared with a standard-library implementation on every stored document; hypotheses: data is a JSON value or absent, the time token is the JSON text of a value, the signer returns non-empty valid UTF-8"],
         rule="all payload kinds (raw value, plain struct, ID, Data, both; nil data) x formats {unset, json, text, invalid} x schema set/unset/empty x source set/nil/empty x signer absent / succeeding / failing x listed / unlisted event types (incl. types with HTML and invalid UTF-8 bytes) x predicate absent/keep/drop/error; non-trivial = a document was produced, distinct by op line",
     ),
     "C09": dict(
